@@ -410,8 +410,9 @@ def r6_group_boundaries_and_filter(ctx):
     ctx.ob(fd.where, "exactly the names rejected by the filter are ignored", ok, u(ig[0]) if ig else "", key="C12-R6|filter-applied")
 
 
-from ..through_time import make_rule as _mk_tt
+from ..through_time import make_rule as _mk_tt, make_t2 as _mk_t2
 _through_time = _mk_tt("C12")
+_small_edits = _mk_t2("C12")
 
 RULES = [
     ("C12-R1", r1_pending_group),
@@ -422,4 +423,5 @@ RULES = [
     ("C12-R6", r6_group_boundaries_and_filter),
     ("C12-R7", _similarity_streams),
     ("C12-T1", _through_time),
+    ("C12-T2", _small_edits),
 ]
